@@ -64,6 +64,20 @@ def scenario(ctx, p):
     else:
         n = ctx.choose("n", [2.0, "2", None, True])
     ctx.ctx.update(n=n, colmajor=colmajor)
+    if p["nkind"] == "sym" and kind in ("list", "arr2", "trough"):
+        # history: an earlier identical request whose result the caller has modified since (results must be independent objects)
+        earlier = ctx.choose("earlier", [None, "truncated", "overwritten"])
+        ctx.ctx["earlier"] = earlier
+        if earlier is not None:
+            try:
+                first = get_trough_wells(n, wells)
+            except Exception:  # noqa: BLE001
+                first = None
+            if isinstance(first, list) and len(first) > 0:
+                if earlier == "truncated":
+                    del first[len(first) // 2:]
+                else:
+                    first[0] = "ZZ9"
     return get_trough_wells(n, wells)
 
 
@@ -107,4 +121,4 @@ def judge(ctx, p, outcome):
 
 def describe(ctx, p, outcome):
     c = ctx.ctx
-    return f"  get_trough_wells({c.get('n')!r}, {p['coll']}) -> {outcome[0]} {outcome[1]!r}"
+    return f"  get_trough_wells({c.get('n')!r}, {p['coll']}) [earlier identical call, result then {c.get('earlier')}] -> {outcome[0]} {outcome[1]!r}"
